@@ -17,15 +17,16 @@ def tagged_rpu(r, tag, pool=None):
 class SNal:
     """a NAL of a generated stream with the model attributes"""
 
-    def __init__(self, data, first=False, poc=0):
+    def __init__(self, data, first=False, poc=0, stype=0):
         self.data = data
+        self.stype = stype
         self.type = H.nal_type(data)
         self.layer = ((data[0] & 1) << 5) | (data[1] >> 3)
         self.first = first
         self.poc = poc
 
     def model(self):
-        return "%d.%d.%d.%d.%s" % (self.type, self.layer, 1 if self.first else 0, self.poc, self.data.hex())
+        return "%d.%d.%d.%d.%d.%s" % (self.type, self.layer, 1 if self.first else 0, self.poc, self.stype, self.data.hex())
 
 
 def gen_frames(r, nframes, el=True, rpu_pool=None, big=0, aud_prob=0.9, multi_slice=True, eos_mid=True, gop=None):
@@ -70,7 +71,8 @@ def gen_frames(r, nframes, el=True, rpu_pool=None, big=0, aud_prob=0.9, multi_sl
             big = 0 if sz > 1000 else big
         nsl = r.choice([1, 1, 2, 4]) if multi_slice else 1
         for s in range(nsl):
-            f.append(SNal(H.slice_nal(r, ntype, s == 0, poc, 2 if 16 <= ntype <= 23 else 1, r.choice([8, 40, 400, 3000])), first=(s == 0), poc=poc))
+            st = 2 if 16 <= ntype <= 23 else (1 if ntype % 2 == 1 else 0)
+            f.append(SNal(H.slice_nal(r, ntype, s == 0, poc, st, r.choice([8, 40, 400, 3000])), first=(s == 0), poc=poc, stype=st))
         if el:
             for s in range(r.choice([1, 1, 2, 3])):
                 inner = H.slice_nal(r, ntype, s == 0, poc, 2 if 16 <= ntype <= 23 else 1, r.choice([8, 40, 900]))
